@@ -3,6 +3,7 @@ mod gen;
 mod monitors;
 mod run;
 mod sched;
+mod seq;
 
 use api::*;
 use run::*;
@@ -289,6 +290,7 @@ fn main() {
     match cmd {
         "explore" => explore(&args),
         "replay" => replay(&args),
+        "seq" => seq::main(&args),
         _ => println!("usage: mqharness explore|replay ..."),
     }
 }
